@@ -128,27 +128,20 @@ func (this *Conn) AddNode(id uint64, address string) {
 	this.addressesMu.Lock()
 	defer this.addressesMu.Unlock()
 
-	existingAddress, exists := this.addresses[id]
-	if !exists {
+	if address == "" {
+		// The membership entry that bootstraps the cluster carries no address.
+		// Recording it would shadow the address the node announces later on
+		// (announcements for a known id are ignored below).
+		return
+	}
+
+	if _, exists := this.addresses[id]; !exists {
 		this.addresses[id] = address
 		this.sendNodesChangeNotification(&nodesChange {
 			Type: NodesChangeAddNode,
 			NodeId: id,
 		})
 		this.log.Infof("Conn: Added node: %16x", id)
-	} else if address != "" && existingAddress != address {
-		// The membership entry that bootstraps the cluster carries no address.
-		// Do not let it (or a stale address) shadow the address the node announced.
-		this.addresses[id] = address
-
-		this.connsMu.Lock()
-		defer this.connsMu.Unlock()
-		if conn, exists := this.conns[id]; exists {
-			if err := conn.Close(); err != nil {
-				log.Error(err)
-			}
-			delete(this.conns, id)
-		}
 	}
 }
 
